@@ -66,7 +66,12 @@ type apiType struct {
 
 func str(s string) rc.W { return rc.Binary([]byte(s)) }
 
-func apiTypes() []apiType {
+func apiTypes() []apiType { return apiTypesTagged("") }
+
+// apiTypesTagged builds the plugin/api base messages with tag appended to
+// every name-like string, so concurrent users hold distinct values.
+func apiTypesTagged(tag string) []apiType {
+	str := func(s string) rc.W { return rc.Binary([]byte(s + tag)) }
 	typ := rc.Struct(rc.Field{ID: 1, V: rc.I32(1)})
 	pair := rc.Struct(rc.Field{ID: 1, V: typ}, rc.Field{ID: 2, V: typ}, rc.Field{ID: 3, V: rc.Map(rc.TBinary, rc.TBinary, str("k"), str("v"))})
 	arg := rc.Struct(rc.Field{ID: 1, V: str("a")}, rc.Field{ID: 2, V: typ}, rc.Field{ID: 3, V: rc.Map(rc.TBinary, rc.TBinary, str("k"), str("v"))})
